@@ -59,6 +59,7 @@ EXC_PARENTS = {
     "StopIteration": "Exception", "AssertionError": "Exception", "RecursionError": "RuntimeError",
     "RuntimeError": "Exception", "NotImplementedError": "RuntimeError", "ZeroDivisionError": "ArithmeticError",
     "ArithmeticError": "Exception", "OverflowError": "ArithmeticError", "Exception": "BaseException",
+    "ImportError": "Exception", "ModuleNotFoundError": "ImportError",
     "ParseError": "Exception", "_ReparseException": "Exception", "ReparseException": "Exception",
     "SerializeError": "Exception", "DataLossWarning": "UserWarning", "UserWarning": "Exception",
 }
